@@ -182,6 +182,42 @@ pub(crate) enum Statement<'a> {
     LocalVarDecl,
 }
 
+/// Labels defined and goto targets used in a statement, with their positions
+fn collect_labels<'a>(
+    st: &'a StatementLoc<'a>,
+    labels: &mut Vec<(&'a str, usize)>,
+    gotos: &mut Vec<(&'a str, usize)>,
+) {
+    if let Some(l) = &st.label {
+        labels.push((l.as_str(), st.pos));
+    }
+    match &st.statement {
+        Statement::Block(v) => {
+            for s in v {
+                collect_labels(s, labels, gotos);
+            }
+        }
+        Statement::For { body, .. } | Statement::While { body, .. } | Statement::DoWhile { body, .. } => {
+            collect_labels(body, labels, gotos)
+        }
+        Statement::If { body, else_body, .. } => {
+            collect_labels(body, labels, gotos);
+            if let Some(e) = else_body {
+                collect_labels(e, labels, gotos);
+            }
+        }
+        Statement::Switch { cases, .. } => {
+            for c in cases {
+                for s in &c.1 {
+                    collect_labels(s, labels, gotos);
+                }
+            }
+        }
+        Statement::Goto(g) => gotos.push((g, st.pos)),
+        _ => (),
+    }
+}
+
 #[derive(Debug, Clone)]
 pub struct StatementLoc<'a> {
     pub(crate) pos: usize,
@@ -2088,6 +2124,20 @@ impl<'a> CompilerState<'a> {
                     self.function_bank = Some(bank);
                     let code = self.compile_block(pair)?;
                     self.function_bank = None;
+                    // Every goto needs its label, and a label is defined once
+                    let mut labels = Vec::new();
+                    let mut gotos = Vec::new();
+                    collect_labels(&code, &mut labels, &mut gotos);
+                    for (i, (l, pos)) in labels.iter().enumerate() {
+                        if labels[..i].iter().any(|(l2, _)| l2 == l) {
+                            return Err(self.syntax_error(&format!("Label {} defined twice", l), *pos));
+                        }
+                    }
+                    for (g, pos) in gotos {
+                        if !labels.iter().any(|(l, _)| *l == g) {
+                            return Err(self.syntax_error(&format!("Unknown label {}", g), pos));
+                        }
+                    }
                     let f = self.functions.get_mut(&self.current_function).unwrap();
                     f.code = Some(code);
                     self.in_scope_variables.clear();
